@@ -61,7 +61,9 @@ def w_bound_kinds(a, b, /, c, *va, k, **kw):
     with kw.cm() as l6:
         l6.q
     [t.r for t in l1 if t.s]
-    l1.u; l2.u; l3.u; l4.u; l5.u; l6.u
+    (l7): int = a.y
+    (l8): 'Str' = l7.w
+    l1.u; l2.u; l3.u; l4.u; l5.u; l6.u; l7.u; l8.u
     print(glob, other_glob, helper, Cls, lam, NT, os, collections, defaultdict, len, __name__)
 '''
 
